@@ -354,7 +354,7 @@ func (rc *racCompiler) call(x ECall) (string, types.Type, bool) {
 	case "fresh", "arr", "off", "disjoint", "ref", "dyn", "implements", "funcis", "idx":
 		return rc.failf("%s() has no run-time meaning", id.Name)
 	}
-	sf := rc.p.Contracts.Specs[id.Name]
+	sf := rc.p.Contracts.Spec(id.Name, rc.fn.Pkg.Pkg.Path())
 	if sf == nil {
 		return rc.failf("unknown function %s", id.Name)
 	}
